@@ -17,7 +17,8 @@ RULE = ("Completed traced runs of both front ends: the shared end-to-end generat
         "labels (for joint runs a run continuing across a series boundary may be read as one or two runs: both accepted), "
         "relative tolerance 1e-9 of the sum of absolute terms; the value must be finite whenever all MRFs are PD. "
         "Non-trivial = >= 2 runs of labels and >= 2 clusters used; distinct by SHA-1 of the case."
-        " S_k is the covariance cluster k was fitted to: the argument of the optimiser call that produced the stored Theta_k (recorded), normally identical to the state's record.")
+        " S_k is the covariance cluster k was fitted to: the argument of the optimiser call that produced the stored Theta_k (recorded), normally identical to the state's record."
+        ' Pinned: 132000 and 140001 alternating rows (more than 65535 runs of one label).')
 ASSUMPTIONS = ["final model state observed through the guarded run_end hook", "runs whose final MRFs are not PD are discarded here and decided by C03"]
 
 
